@@ -733,13 +733,16 @@ def decorate_with_checker(func: CallableT) -> CallableT:
                 in_progress = set()
                 _IN_PROGRESS.set(in_progress)
 
+            # If the wrapper is already checking the contracts for the wrapped function, avoid a recursive loop
+            # by skipping any subsequent contract checks for the same function.
+            #
+            # This has to happen outside of the try-finally block below: the re-entrant call must not remove
+            # the mark which belongs to the outer call still checking its contracts.
+            if id_func in in_progress:
+                return await func(*args, **kwargs)
+
             # Use try-finally instead of ExitStack for performance.
             try:
-                # If the wrapper is already checking the contracts for the wrapped function, avoid a recursive loop
-                # by skipping any subsequent contract checks for the same function.
-                if id_func in in_progress:
-                    return await func(*args, **kwargs)
-
                 in_progress.add(id_func)
 
                 (preconditions, snapshots, postconditions) = _unpack_pre_snap_posts(
@@ -807,13 +810,16 @@ def decorate_with_checker(func: CallableT) -> CallableT:
                 in_progress = set()
                 _IN_PROGRESS.set(in_progress)
 
+            # If the wrapper is already checking the contracts for the wrapped function, avoid a recursive loop
+            # by skipping any subsequent contract checks for the same function.
+            #
+            # This has to happen outside of the try-finally block below: the re-entrant call must not remove
+            # the mark which belongs to the outer call still checking its contracts.
+            if id_func in in_progress:
+                return func(*args, **kwargs)
+
             # Use try-finally instead of ExitStack for performance.
             try:
-                # If the wrapper is already checking the contracts for the wrapped function, avoid a recursive loop
-                # by skipping any subsequent contract checks for the same function.
-                if id_func in in_progress:
-                    return func(*args, **kwargs)
-
                 in_progress.add(id_func)
 
                 (preconditions, snapshots, postconditions) = _unpack_pre_snap_posts(
